@@ -76,6 +76,7 @@ type node struct {
 	// recovered from an image whose log had been destroyed: the node opened a new, empty log
 	freshLog bool
 	cancel   context.CancelFunc
+	mgr      replica.WriteAheadLogManager
 }
 
 // manager mode: the partition is created and recovered by the REAL write ahead log manager (replica/wal_manager.go,
@@ -112,8 +113,10 @@ func (n *node) openLog() error {
 	replica.VerifStepwise = true
 	ctx, cancel := context.WithCancel(context.Background())
 	n.cancel = cancel
-	mgr := replica.NewWriteAheadLogManager(ctx, config.WAL{Dir: filepath.Join(n.dir, "wal"),
+	mgr := n.mgr
+	mgr = replica.NewWriteAheadLogManager(ctx, config.WAL{Dir: filepath.Join(n.dir, "wal"),
 		RemoveTaskInterval: ltoml.Duration(24 * time.Hour)}, nodeSelf, n.engine, nil, fakeStateMgr{})
+	n.mgr = mgr
 	if err := mgr.Recovery(); err != nil {
 		return err
 	}
@@ -748,6 +751,23 @@ func nodeHistory(rec *trace.Recorder, dir string, rng *rand.Rand, h int, image, 
 			}
 			run.familyFlush(w)
 			script = append(script, fmt.Sprintf("flushjob(racing=%v)", racing))
+		case c >= 96 && nodeViaMgr:
+			// the WAL GC pass of the REAL manager (writeAheadLogManager.garbageCollect -> writeAheadLog.destroy): Sync, GC and
+			// the expiry check of every partition; an expired log is stopped, closed and removed by lindb itself
+			replica.VerifWalGC(n.mgr)
+			_, serr := os.Stat(nodeQueueDir(n.dir))
+			expired := os.IsNotExist(serr)
+			rec.Emit("ExpireCheck", trace.F{"expired": expired})
+			script = append(script, fmt.Sprintf("walgc(%v)", expired))
+			if !expired {
+				rec.Emit("Proj", n.proj(run.names))
+				run.snapshot("after-ExpireCheck")
+				break
+			}
+			n.destroyed = true
+			rec.Emit("ProjData", n.projData())
+			run.snapshot("after-destroy")
+			i = steps
 		case c >= 96 && !nodeViaMgr:
 			// the WAL GC task looks at the partition of this (long expired) family: Sync, GC, and if no group has
 			// data the log is destroyed as writeAheadLog.destroy does (stop, close, remove the directory)
